@@ -267,6 +267,7 @@ structure TpmRules (W : World) (st : AttStmt) (authDataRaw : Cbor) (cdj credKey 
     hashAlgByCose none = .ok h0 ∧ hashAlgByCose (some alg) = .ok h ∧
     ci.extraData = W.hash h (ad ++ W.hash h0 cdj) ∧                             -- extraData hash
     tpmAlgCoseAlgMap.lookup pa.nameAlg = some hnCose ∧ hashAlgByCose (some (cborOfInt hnCose)) = .ok hn ∧
+    ci.attested.nameAlg = pa.nameAlg ∧                                          -- Name algorithm = pubArea.nameAlg
     ci.attested.name = ci.attested.nameAlgBytes ++ W.hash hn pubArea ∧          -- attested Name digest
     W.x509Load leaf = some cert ∧
     SigChecked W cert.key alg st.sig certInfo ∧                                 -- signature over certInfo
@@ -294,7 +295,7 @@ theorem tpm {W : World} {st : AttStmt} {adRaw : Cbor} {cdj credKey : Bytes} {roo
   simp only [runM_reject_ok, runM_liftE_ok, validateChainReg_bind_ok, loadCert_bind_ok, hashByAlgM_bind_ok,
     verifySignatureC_bind_ok, x5c_head, someOr_ok, runM_liftE] at h
   obtain ⟨_, _, halg, _, _, hver, x5c, hx5c, hchain, pab, hpab, pa, hpa, key, hkey, u, hagree, cib, hcib, ci, hci,
-    hmagic, h0, hh0, data, hdata, hh, hhh, hextra, nc, hnc, hn, hhn, hname, leaf, ⟨rest, hrest⟩, cert, hcert, hs, hprof⟩ := h
+    hmagic, h0, hh0, data, hdata, hh, hhh, hextra, nc, hnc, hn, hhn, hnamealg, hname, leaf, ⟨rest, hrest⟩, cert, hcert, hs, hprof⟩ := h
   cases u
   obtain ⟨alg, halg', _⟩ := cborTruthy_some (by simpa using halg)
   obtain ⟨ad, hraw, hd⟩ := attToBeSigned_ok hdata
@@ -305,8 +306,62 @@ theorem tpm {W : World} {st : AttStmt} {adRaw : Cbor} {cdj credKey : Bytes} {roo
   exact ⟨ad, x5c, leaf, rest, cert, alg, pab, cib, pa, ci, key, h0, hh, nc, hn,
     hraw, halg', by simpa using hver, hx5c, hrest, hchain, optBytes_ok hpab, hpa, hkey, tpmKeyAgreement_ok hagree,
     optBytes_ok hcib, hci, by simpa using hmagic, parseCertInfo_type hci, hh0, hhh, by simpa using hextra,
-    hnc, hhn, by simpa using (by simpa using hname : _ = ci.attested.name).symm, hcert, hs,
+    hnc, hhn, by simpa using hnamealg, by simpa using (by simpa using hname : _ = ci.attested.name).symm, hcert, hs,
     tpmCertProfile_ok hprof⟩
+
+/-- the regenerated TPM_ALG_ID table is injective: an algorithm name determines its 2-byte id -/
+theorem tpmAlgMap_injective : ∀ p ∈ tpmAlgMap, ∀ q ∈ tpmAlgMap, p.2 = q.2 → p.1 = q.1 := by
+  decide +kernel
+
+theorem parseCertInfo_name {val : Bytes} {ci : TPMCertInfo} (h : parseCertInfo val = .ok ci) :
+    ci.attested.nameAlgBytes = slice ci.attested.name 0 2 ∧
+    tpmAlgMap.lookup ci.attested.nameAlgBytes = some ci.attested.nameAlg := by
+  unfold parseCertInfo at h
+  simp only [except_bind_ok, rejectE_eq_ok, exists_const] at h
+  obtain ⟨ty, _, hty, att, hatt, clk, _, h⟩ := h
+  have : ci = _ := (Except.ok.inj h).symm
+  subst this
+  unfold parseAttestedName at hatt
+  rw [except_bind_ok] at hatt
+  obtain ⟨alg, halg, hatt⟩ := hatt
+  have : att = _ := (Except.ok.inj hatt).symm
+  subst this
+  unfold tpmLookup at halg
+  split at halg
+  · rename_i v hv; cases halg; exact ⟨rfl, hv⟩
+  · cases halg
+
+theorem parsePubArea_nameAlg {val : Bytes} {pa : TPMPubArea} (h : parsePubArea val = .ok pa) :
+    tpmAlgMap.lookup (slice val 2 4) = some pa.nameAlg := by
+  unfold parsePubArea at h
+  rw [except_bind_ok] at h; obtain ⟨ty, _, h⟩ := h
+  rw [except_bind_ok] at h; obtain ⟨na, hna, h⟩ := h
+  have hl : tpmAlgMap.lookup (slice val 2 4) = some na := by
+    unfold tpmLookup at hna
+    split at hna
+    · rename_i v hv; cases hna; exact hv
+    · cases hna
+  simp only at h
+  split at h
+  · rw [except_bind_ok] at h; obtain ⟨_, _, h⟩ := h
+    have : pa = _ := (Except.ok.inj h).symm
+    subst this; exact hl
+  · split at h
+    · rw [except_bind_ok] at h; obtain ⟨_, _, h⟩ := h
+      have : pa = _ := (Except.ok.inj h).symm
+      subst this; exact hl
+    · cases h
+
+/-- TPM, full strength (after the F4 repair): the attested Name is pubArea's own nameAlg id
+followed by the digest of pubArea under that algorithm. -/
+theorem tpm_name_is_name_of_pubarea {pubArea certInfo : Bytes} {pa : TPMPubArea} {ci : TPMCertInfo}
+    (hpa : parsePubArea pubArea = .ok pa) (hci : parseCertInfo certInfo = .ok ci)
+    (halg : ci.attested.nameAlg = pa.nameAlg) :
+    ci.attested.nameAlgBytes = slice pubArea 2 4 := by
+  obtain ⟨_, h1⟩ := parseCertInfo_name hci
+  have h2 := parsePubArea_nameAlg hpa
+  rw [halg] at h1
+  exact tpmAlgMap_injective _ (lookup_mem h1) _ (lookup_mem h2) rfl
 
 /-! ### apple -/
 
@@ -347,7 +402,7 @@ structure AndroidKeyRules (W : World) (st : AttStmt) (authDataRaw : Cbor) (cdj c
     decodeCose credKey = .ok key ∧ coseToPubKey key = .ok pk ∧ W.keyLoad pk = true ∧ cert.spki = W.spki pk ∧
     cert.keyDesc = some kdDer ∧ W.keyDescription kdDer = some kd ∧
     kd.attestationChallenge = W.sha256 cdj ∧
-    kd.swAllAppsNativeIsNone = true ∧ kd.teeAllAppsNativeIsNone = true ∧   -- what the code tests (see F3)
+    kd.swAllAppsPresent = false ∧ kd.teeAllAppsPresent = false ∧           -- allApplications absent
     kd.teeOrigin = some 0 ∧ kd.teePurpose = some [2]
 
 theorem android_key {W : World} {st : AttStmt} {adRaw : Cbor} {cdj credKey : Bytes} {roots : List Root}
